@@ -39,7 +39,10 @@ VARIABLES ini, acp,   \* stream state on the initiating / accepting side
 vars == <<ini, acp, rtp, pend, rsp, fin, chain, last, ini0, acp0, nops>>
 
 States == {"IDLE", "CONFIGURED", "OPEN", "STREAMING", "CLOSING", "ABORTING"}
-Ops    == {"configure", "open", "start", "suspend", "close", "abort"}
+\* start_list / suspend_list: a START / SUSPEND command that names this stream's endpoint FIRST and then an endpoint
+\* that cannot perform the procedure (unknown, or never configured).  The command as a whole is illegal in every
+\* state: it must be rejected and must not have started / suspended the endpoints named before the bad one.
+Ops    == {"configure", "open", "start", "suspend", "close", "abort", "start_list", "suspend_list"}
 NoOp   == [op |-> "none", via |-> "none"]
 
 Legal(op, s) ==
@@ -49,6 +52,7 @@ Legal(op, s) ==
       [] op = "suspend"   -> s = "STREAMING"
       [] op = "close"     -> s \in {"OPEN", "STREAMING"}
       [] op = "abort"     -> s # "IDLE"
+      [] op \in {"start_list", "suspend_list"} -> FALSE
 
 \* state after an accepted command; has_rtp: a transport channel has to be released first
 After(op, has_rtp) ==
@@ -81,6 +85,7 @@ IssueSend(op, via) ==
 \* the initiating side's own check refuses
 IssueRefuse(op) ==
     /\ Begin
+    /\ op \notin {"start_list", "suspend_list"}     \* bare commands only: the stream API names one endpoint
     /\ ~Legal(op, ini)
     /\ ~(op = "abort" /\ ini = "IDLE")
     /\ last' = "refused"
